@@ -298,6 +298,14 @@ func O8f(rc *RC, only func(fnKey string) bool, floor int) {
 			if x.Op == token.MUL && isAPType(x.Type()) && nonLocalAddr(x.X) {
 				return "load of " + x.X.String(), true
 			}
+			// the transpose axes of a tensor are pool-managed like its access patterns
+			if x.Op == token.MUL {
+				if fa, ok := x.X.(*ssa.FieldAddr); ok && nonLocalAddr(x.X) {
+					if f, ok := fieldOfDense(fa); ok && f == "transposeWith" {
+						return "load of " + x.X.String(), true
+					}
+				}
+			}
 		case *ssa.Call:
 			if f := x.Common().StaticCallee(); f != nil && returnsAlias[f] {
 				return "result of " + f.Name() + " (returns an alias)", true
@@ -363,7 +371,7 @@ func O8f(rc *RC, only func(fnKey string) bool, floor int) {
 			for _, ins := range b.Instrs {
 				switch x := ins.(type) {
 				case *ssa.Store:
-					if !isAPType(x.Val.Type()) {
+					if !isAPType(x.Val.Type()) && !isTransposeWithLoad(x.Val) {
 						continue
 					}
 					src, isAlias := isAliasSource(x.Val)
@@ -713,4 +721,18 @@ func V1(rc *RC) {
 			rc.S.Ok("V1", key, pos, fmt.Sprintf("%d allocation(s), %d copy primitive call(s), no storage field shared", allocs, copies))
 		}
 	}
+}
+
+// isTransposeWithLoad: v is the value of some tensor's transposeWith field.
+func isTransposeWithLoad(v ssa.Value) bool {
+	u, ok := v.(*ssa.UnOp)
+	if !ok || u.Op != token.MUL {
+		return false
+	}
+	fa, ok := u.X.(*ssa.FieldAddr)
+	if !ok {
+		return false
+	}
+	f, ok := fieldOfDense(fa)
+	return ok && f == "transposeWith"
 }
